@@ -51,6 +51,10 @@ def sibling_body(rng, names, kind=None):
         first, handler = names(), names()
         return {"StartAt": first, "States": {first: dict(F.T("inner"), Catch=[{"ErrorEquals": ["Inner.Err"], "ResultPath": "$.caught", "Next": handler}], End=True),
                                              handler: dict(F.T("sibslow"), End=True)}}
+    if kind == "retrying":
+        # a sibling whose Task keeps failing with its own error under its own Retrier: when the other branch fails it sits in its retry interval (no request
+        # outstanding, nothing to cancel), is invoked again afterwards and answers with its error again
+        return F.chain([(names(), dict(F.T("bang"), Retry=[{"ErrorEquals": ["Bang"], "IntervalSeconds": rng.randint(2, 3), "MaxAttempts": rng.randint(1, 2), "BackoffRate": 1.0}]))])
     if kind == "timed":
         # a sibling waiting for a worker that never answers, under its own TimeoutSeconds: its timer fires after the other branch has failed
         return F.chain([(names(), dict(F.T("mute"), TimeoutSeconds=rng.randint(2, 4)))])
@@ -327,6 +331,17 @@ def run(ctx):
                     scn, meta = make(rng, "Parallel", n, {0}, handlers, sib_kind="timed", fail_delay=rng.choice([None, 1]), recover=recover)
                     ctx.count("timed_sibling_scenarios")
                     explore(ctx, scn, dict(meta, family="fanout-failure-timed-sibling"), n_random, "c06t-%d" % i)
+    # siblings in their own retry interval when the failure comes (1 s later), with every handler combination
+    for n in (2, 3):
+        for handlers in ("none", "catch", "retry", "retry+catch"):
+            for variant in range(ctx.pick(1, 3)):
+                i += 1
+                if not ctx.mine(i):
+                    continue
+                rng = ctx.rng("retrying", n, handlers, variant)
+                scn, meta = make(rng, "Parallel", n, {0}, handlers, sib_kind="retrying", fail_delay=1, recover="slowtask")
+                ctx.count("retrying_sibling_scenarios")
+                explore(ctx, scn, dict(meta, family="fanout-failure-retrying-sibling"), n_random, "c06r-%d" % i)
     # exhaustive schedules for small fan-outs
     for j, (kind, n, failing, handlers) in enumerate([("Parallel", 2, {0}, "none"), ("Parallel", 2, {0}, "catch"), ("Parallel", 3, {1}, "none"), ("Map", 2, {0}, "none"),
                                                       ("Map", 2, {1}, "retry"), ("Parallel", 2, {0, 1}, "none"), ("Map", 3, {0, 2}, "catch")]):
